@@ -3186,6 +3186,7 @@ func runSetLen(obj string, nk, trials int, qs [][]setOp) hx.Case {
 	want := show(len(final), len(final), wantHas)
 	G := int32(len(qs))
 	got, trial := "", 0
+	phantom := ""
 	out := withWatchdog(30*time.Second, func() {
 		for trial = 0; trial < trials; trial++ {
 			var cs list.Set
@@ -3204,6 +3205,29 @@ func runSetLen(obj string, nk, trials int, qs [][]setOp) hx.Case {
 			}
 			var arrived int32
 			var wg sync.WaitGroup
+			// (tenth round) a reader that keeps taking ToArray() while the others work: whatever it is handed must be a key that
+			// somebody put — the snapshot need not be atomic (KF-C20-1), but it cannot contain what was never in the set
+			var stopReader int32
+			readerDone := make(chan struct{})
+			go func() {
+				defer close(readerDone)
+				for atomic.LoadInt32(&stopReader) == 0 {
+					if obj == "cs" {
+						for _, e := range cs.ToArray() {
+							if n, err := strconv.Atoi(e); err != nil || n < 1 || n > setLenMaxKey {
+								phantom = fmt.Sprintf("%q", e)
+							}
+						}
+					} else {
+						for _, e := range gs.ToArray() {
+							if e < 1 || e > setLenMaxKey {
+								phantom = strconv.Itoa(e)
+							}
+						}
+					}
+					runtime.Gosched()
+				}
+			}()
 			wg.Add(len(qs))
 			for _, q := range qs {
 				go func(q []setOp) {
@@ -3230,6 +3254,11 @@ func runSetLen(obj string, nk, trials int, qs [][]setOp) hx.Case {
 				}(q)
 			}
 			wg.Wait()
+			atomic.StoreInt32(&stopReader, 1)
+			<-readerDone
+			if phantom != "" {
+				return
+			}
 			// quiescent: nobody else touches the set any more
 			var ln, arr int
 			var has []string
@@ -3251,6 +3280,12 @@ func runSetLen(obj string, nk, trials int, qs [][]setOp) hx.Case {
 	})
 	if out != "" {
 		c.Obs, c.Oracle = out, "FAIL setlen-"+out+" the goroutines did not return"
+		return c
+	}
+	if phantom != "" {
+		c.Obs = want // (the final state was not looked at: the verdict is the reader's)
+		c.Oracle = fmt.Sprintf("FAIL set-phantom-element trial %d: ToArray() taken while %d goroutines (%s) worked on a fresh set {1..%d} contained %s, which nobody ever put",
+			trial, len(qs), setQueuesString(qs), nk, phantom)
 		return c
 	}
 	c.Obs = got
